@@ -8,6 +8,7 @@ import (
 	"fmt"
 	"io"
 	"math/rand"
+	"sort"
 	"strings"
 	"sync"
 	"time"
@@ -543,6 +544,20 @@ func FamErrors[T any](c Codec[T], stream bool, chunk int, seed int64, n int) Sys
 }
 
 // ---- C11 / C12: closures ----
+// the error text a failing closure returns: also texts with white space around them (an error crosses
+// the link as its message, unchanged)
+func cbFailText(tag, i int) string {
+	switch tag % 4 {
+	case 1:
+		return fmt.Sprintf("cbfail%d\n", i)
+	case 2:
+		return fmt.Sprintf("  cbfail%d", i)
+	case 3:
+		return fmt.Sprintf("\tcb fail\n\t%d \n", i)
+	}
+	return fmt.Sprintf("cbfail%d", i)
+}
+
 func FamClosures[T any](c Codec[T], stream bool, chunk int, seed int64, n int) SysRecord {
 	r := rand.New(rand.NewSource(seed))
 	rec := SysRecord{Family: "closures", Config: cfgName(c.Name, stream, chunk), Seed: seed}
@@ -578,7 +593,7 @@ func FamClosures[T any](c Codec[T], stream bool, chunk int, seed int64, n int) S
 			runs = append(runs, canon([]any{i, s, xs, b}))
 			mu.Unlock()
 			if i == failAt {
-				return fmt.Sprintf("r%d", i), fmt.Errorf("cbfail%d", i)
+				return fmt.Sprintf("r%d", i), errors.New(cbFailText(tag, i))
 			}
 			return fmt.Sprintf("r%d", i), nil
 		})
@@ -614,6 +629,26 @@ func FamClosures[T any](c Codec[T], stream bool, chunk int, seed int64, n int) S
 		v, err := p.ra.IterCount(pctx, 487, func(ctx context.Context, cn Count, sm Small) (Count, error) { return cn + Count(sm+1), nil })
 		pcancel()
 		rec.Calls = append(rec.Calls, SysCall{Tag: 487, From: "A", Method: "IterCount", Ret: v, Err: errText(err), Done: true})
+	}
+	// one invocation of the callable is cancelled (context of that invocation only) while another is in flight
+	{
+		rel := make(chan struct{})
+		var once sync.Once
+		pctx, pcancel := context.WithTimeout(ctx, 8*time.Second)
+		v, err := p.ra.IterDerived(pctx, 486, func(ctx context.Context, i int, s string, xs []int, b bool) (string, error) {
+			if i == 2 {
+				once.Do(func() { close(rel) })
+			} else {
+				select {
+				case <-rel:
+				case <-time.After(6 * time.Second):
+				}
+			}
+			return fmt.Sprintf("r%d", i), nil
+		})
+		pcancel()
+		once.Do(func() { close(rel) })
+		rec.Calls = append(rec.Calls, SysCall{Tag: 486, From: "A", Method: "IterDerived", Ret: v, Err: errText(err), Done: true})
 	}
 	// two closures in one call: each callable reaches its own function
 	{
@@ -924,12 +959,52 @@ func FamHub[T any](c Codec[T], seed int64) SysRecord {
 	spokes := make([]*SysNode[T], n)
 	links := make([]*SysLink[T], n)
 	spokeHubID := make([]string, n) // the id under which the hub knows spoke i (learned by WhoAmI)
+	// every other run sets the links of spokes 1.. up at the same time, while an enumeration on the hub is in
+	// progress (so that the set-ups overlap between building the remote and registering it)
+	overlap := seed%2 == 0
+	held := make(chan struct{})
 	for i := range spokes {
 		spokes[i] = NewSysNode[T](w, fmt.Sprintf("S%d", i))
-		links[i] = Connect(w, hub, spokes[i], c, r.Intn(2) == 0, -1, seed+int64(i))
+		stream := r.Intn(2) == 0
+		if overlap && i == 1 {
+			started := make(chan struct{})
+			go func() {
+				defer close(held)
+				_ = hub.Reg.ForRemotes(func(id string, rem sysRemote) error {
+					select {
+					case <-started:
+					default:
+						close(started)
+						time.Sleep(120 * time.Millisecond)
+					}
+					return nil
+				})
+			}()
+			select {
+			case <-started:
+			case <-time.After(2 * time.Second):
+			}
+		}
+		links[i] = Connect(w, hub, spokes[i], c, stream, -1, seed+int64(i))
+		if overlap && i >= 1 {
+			continue
+		}
 		if !WaitRemotes(hub, i+1) || !WaitRemotes(spokes[i], 1) {
 			rec.Notes = append(rec.Notes, "link did not come up")
 			return rec
+		}
+	}
+	if overlap {
+		<-held
+		if !WaitRemotes(hub, n) {
+			rec.Notes = append(rec.Notes, "link did not come up")
+			return rec
+		}
+		for i := range spokes {
+			if !WaitRemotes(spokes[i], 1) {
+				rec.Notes = append(rec.Notes, "link did not come up")
+				return rec
+			}
 		}
 	}
 	ctx, cancel := context.WithTimeout(context.Background(), 15*time.Second)
@@ -955,6 +1030,48 @@ func FamHub[T any](c Codec[T], seed int64) SysRecord {
 		}
 		v, err := rem.EchoInt(ctx, tag, int64(tag))
 		add(SysCall{Tag: tag, From: "H", Method: "EchoInt", Arg: fmt.Sprint(tag), Ret: canon(v), Err: errText(err), Done: true, Extra: id})
+	}
+	// a function the hub passed on one link is still being executed for that link's peer while the hub makes a
+	// closure-carrying call on another link: the second call does not wait for the first link's traffic
+	{
+		ids := make([]string, 0, len(hubRemotes))
+		for id := range hubRemotes {
+			ids = append(ids, id)
+		}
+		sort.Strings(ids)
+		if len(ids) >= 2 {
+			entered, release := make(chan struct{}), make(chan struct{})
+			slowDone := make(chan SysCall, 1)
+			go func() {
+				v, err := hubRemotes[ids[0]].Iter(ctx, 7200, 1, func(ctx context.Context, k int, st string, xs []int, b bool) (string, error) {
+					close(entered)
+					select {
+					case <-release:
+					case <-time.After(8 * time.Second):
+					}
+					return "slow", nil
+				})
+				slowDone <- SysCall{Tag: 7200, From: "H", Method: "SlowCbAcross", Ret: v, Err: errText(err), Done: true}
+			}()
+			select {
+			case <-entered:
+			case <-time.After(3 * time.Second):
+				rec.Notes = append(rec.Notes, "the hub's function passed on one link was never invoked")
+			}
+			qctx, qcancel := context.WithTimeout(ctx, 3*time.Second)
+			v, err := hubRemotes[ids[1]].Iter(qctx, 7300, 1, func(ctx context.Context, k int, st string, xs []int, b bool) (string, error) {
+				return "quick", nil
+			})
+			qcancel()
+			add(SysCall{Tag: 7300, From: "H", Method: "QuickCbAcross", Ret: v, Err: errText(err), Done: true})
+			close(release)
+			select {
+			case cl := <-slowDone:
+				add(cl)
+			case <-time.After(5 * time.Second):
+				add(SysCall{Tag: 7200, From: "H", Method: "SlowCbAcross", Err: "STUCK", Done: true})
+			}
+		}
 	}
 	// calls in flight on every link, then one link fails
 	var wg sync.WaitGroup
@@ -1350,5 +1467,40 @@ func FamCtxEnd[T any](c Codec[T], stream bool, chunk int, seed int64) SysRecord 
 	}
 	time.Sleep(2 * time.Millisecond)
 	rec.Events = p.w.Events()
+	return rec
+}
+
+// FamClosuresLong — a long history on one registry: total sequential closure-carrying calls (alternating the
+// exit path: normal return, closure error), the closure table must be empty after every one of them
+func FamClosuresLong(seed int64, total int) SysRecord {
+	c := jsonRawCodec()
+	rec := SysRecord{Family: "closures", Config: cfgName(c.Name, false, -1) + "/long", Seed: seed}
+	p, err := newPair(c, false, -1, seed)
+	if err != nil {
+		rec.Notes = append(rec.Notes, err.Error())
+		return rec
+	}
+	ctx, cancel := context.WithTimeout(context.Background(), 40*time.Second)
+	defer cancel()
+	ran := 0
+	for k := 0; k < total; k++ {
+		err := p.ra.IterErr(ctx, 60000+k, k, func(ctx context.Context, x int) error {
+			ran++
+			if x%5 == 4 {
+				return errors.New("cbfail")
+			}
+			return nil
+		})
+		if (k%5 == 4) != (err != nil) {
+			rec.Notes = append(rec.Notes, fmt.Sprintf("sequential closure-carrying call number %d returned %v", k+1, err))
+			break
+		}
+		if n := p.a.Reg.VerifClosureCount(); n != 0 {
+			rec.Notes = append(rec.Notes, fmt.Sprintf("CLOSURES-REMAIN tag=%d count=%d after sequential closure-carrying call number %d on this registry returned", 60000+k, n, k+1))
+			break
+		}
+	}
+	rec.Calls = append(rec.Calls, SysCall{Tag: 60000, From: "A", Method: "LongHistory", Ret: fmt.Sprint(ran), Arg: fmt.Sprint(total), Done: true})
+	rec.LinkA, rec.LinkB = p.close()
 	return rec
 }
